@@ -58,14 +58,21 @@ def located(parent, node):
     return None
 
 
-def make_new(spec):
-    """spec: list of ['s', text] | ['n', source]"""
+def make_new(spec, target=None):
+    """spec: list of ['s', text] | ['n', source] | ['self', 'node'|'copy']
+    (the replaced node itself is a legitimate piece of its replacement:
+    `node.replace_with('(', node, ')')`)"""
     from TexSoup import TexSoup
     out, text = [], ''
     for kind, v in spec:
         if kind == 's':
             out.append(v)
             text += v
+        elif kind == 'self':
+            if target is None:
+                continue
+            out.append(target if v == 'node' else target.copy())
+            text += str(target)
         else:
             node = TexSoup(v).contents[0].copy()
             out.append(node)
@@ -153,6 +160,11 @@ class C05(Prop):
                 for op in ('delete', 'replace_with', 'remove', 'replace'):
                     k += 1
                     spec = new()
+                    if op.startswith('replace') and rng.random() < .15:
+                        # the target itself (or its copy) among the pieces,
+                        # and the empty string as a piece
+                        spec.insert(rng.randrange(len(spec) + 1),
+                                    rng.choice([['self', 'node'], ['self', 'copy'], ['s', '']]))
                     if want(k):
                         yield k, {'src': src, 'op': op, 'target': t, 'new': spec, 'nt': nt}
             for ci, n in enumerate(lens):
@@ -230,7 +242,9 @@ class C05(Prop):
                 parent.remove(node)
                 expected = src[:pos] + src[pos + len(old):]
             else:
-                new, text = make_new(p['new'])
+                new, text = make_new(p['new'], node)
+                if any(k == 'self' for k, _ in p['new']):
+                    ctx.count('replacements_containing_the_target')
                 if op == 'replace_with':
                     node.replace_with(*new)
                 else:
@@ -314,6 +328,8 @@ class C05(Prop):
         for op in ('delete', 'replace_with', 'remove', 'replace', 'insert', 'append', 'remove-leaf'):
             if c.get('op:' + op, 0) < 300:
                 g.append('operation %s issued fewer than 300 times' % op)
+        if c.get('replacements_containing_the_target', 0) < 50:
+            g.append('fewer than 50 replacements that contain the replaced node itself')
         if c.get('all_targets_with_twin', 0) < 100:
             g.append('fewer than 100 edits through the .all view aimed at a target with a twin')
         if c.get('targets_with_twin', 0) < 500:
